@@ -66,6 +66,11 @@ def run_b64dec(case, rt):
     kind, text = case["kind"], dec(case["text"])
     valid, ref = py_decode(kind, text)
     status, out = call(rt, "b64dec", kind, text)
+    if valid and status != "ok" and status.startswith("exc:St16invalid_argument") and base64.b64encode(ref, altchars=(b"-_" if kind == "2" else None)) != text:
+        # a text no encoder produces (unused bits set before the padding): decoding it, as Python does, or refusing it as
+        # non-canonical are both within the statement
+        rt.cls("b64dec:refuses-non-canonical")
+        return
     if valid:
         vcheck(status == "ok", "rejects-what-python-accepts:" + kind, "base64_decode(%r) raised %s; Python decodes it to %s" % (text, status, ref.hex()))
         vcheck(out[0] == ref, "decode-vs-python:" + kind, "base64_decode(%r) = %s, Python gives %s" % (text, out[0].hex(), ref.hex()))
